@@ -49,7 +49,7 @@ type SecureCfg struct {
 }
 
 var sidVariants = []string{"[WL2K-5.0-B2FWIHJM$]", "[RMS Express-1.5.35.0-B2FHM$]", "[FBB-7.00-AB1B2FHM$]", "[wl2kgo-0.1a-b2fhm$]",
-	"[JNOS-2.0m-IHMB2F$]", "[BPQ-6.0.23.1-B2FIHJM$]", "[X-1-FB2$]"}
+	"[JNOS-2.0m-IHMB2F$]", "[BPQ-6.0.23.1-B2FIHJM$]", "[X-1-FB2$]", "[WL2K-B2FWIHJM$]", "[X-B2F$]"}
 
 var answerTokens = map[string][]string{"+": {"+", "Y", "y", "!0", "A0", "a0"}, "-": {"-", "N", "n", "R", "r"}, "=": {"=", "L", "l", "H", "h"}}
 
